@@ -1,5 +1,4 @@
 import BPT.Py.Bulk
-import BPT.Generated.TiePy
 /-
   C09 — the pure-Python tree keeps the B+ tree invariants after every mutation.
 
